@@ -41,7 +41,9 @@ def r1_checkers(ctx):
         tag = Q.tags(p.conds)
         i_chk = Q.first_index(p, lambda e: e.kind == "call" and callee(e.data[0]) == "verde.coordinates._check_geographic_region")
         i_use = Q.first_index(p, lambda e: (e.kind == "cond" and any(x == Q.sub(REG, 0) or x == Q.sub(REG, 1) for x in walk(e.data[0]))) or (e.kind == "store"))
-        ctx.check("R1", "%s|region-checked-first|%s" % (qn, tag), True if i_chk is not None and (i_use is None or i_chk < i_use) else False,
+        # the range tests written out in place of the checker (its body inlined) are not recognised as such: the question stays open
+        inline_tests = i_chk is None and any(c[0] == "call" and callee(c) in ("numpy.any", "builtins.any") and any(x == Q.sub(REG, 0) for x in walk(c)) for c, _v in p.conds)
+        ctx.check("R1", "%s|region-checked-first|%s" % (qn, tag), True if i_chk is not None and (i_use is None or i_chk < i_use) else (None if inline_tests else False),
                   "_check_geographic_region precedes every use of the bounds", bad="the bounds are used before / without the geographic range check", fn=qn)
         if i_chk is not None:
             a = p.events[i_chk].data[0][2]
@@ -50,7 +52,8 @@ def r1_checkers(ctx):
         if lookup(p.decided, CO) is True:
             i_c = Q.first_index(p, lambda e: e.kind == "call" and callee(e.data[0]) == "verde.coordinates._check_geographic_coordinates" and e.data[0][2] == (CO,))
             i_s = Q.first_index(p, lambda e: e.kind == "store" and CO in Q.leaves(e.data[0]))
-            ctx.check("R1", "%s|coordinates-checked-first|%s" % (qn, tag), True if i_c is not None and (i_s is None or i_c < i_s) else False,
+            inline_c = i_c is None and any(c[0] == "call" and callee(c) in ("numpy.any", "builtins.any") and any(x == Q.sub(CO, 0) for x in walk(c)) for c, _v in p.conds)
+            ctx.check("R1", "%s|coordinates-checked-first|%s" % (qn, tag), True if i_c is not None and (i_s is None or i_c < i_s) else (None if inline_c else False),
                       "_check_geographic_coordinates precedes the modification of the longitudes", bad="longitudes are modified before / without the range check", fn=qn)
     qn = "verde.coordinates._check_geographic_region"
     ps = ctx.paths(qn)
@@ -200,12 +203,14 @@ def r2_r3_r4(ctx):
                 continue
         if globe and "lon" in forms:
             want = sp.fn("mod", x, Builder(sp).nf(const(360)))
-            ctx.check("R3", "%s|same-convention|%s" % (qn, tag), True if forms["lon"] == want else False, "with the (0, 360) region the longitudes are reduced to [0, 360)",
+            plain = all(sp.atoms[a][0] in ("sym",) or (sp.atoms[a][0] == "fn" and sp.atoms[a][1][0] == "mod") for a in forms["lon"].atoms_used())
+            ctx.check("R3", "%s|same-convention|%s" % (qn, tag), True if forms["lon"] == want else (False if plain else None), "with the (0, 360) region the longitudes are reduced to [0, 360)",
                       bad="full-globe region (0, 360) but longitudes are transformed by %r" % forms["lon"], fn=qn)
         elif len(forms) >= 2:
             vals = list(forms.values())
             same = all(v_ == vals[0] for v_ in vals[1:])
-            ctx.check("R3", "%s|same-convention|%s" % (qn, tag), True if same else False, "the bounds%s get one and the same transform on this branch" % (" and the longitudes" if "lon" in forms else ""),
+            plain = all(sp.atoms[a][0] in ("sym",) or (sp.atoms[a][0] == "fn" and sp.atoms[a][1][0] == "mod") for v_ in vals for a in v_.atoms_used())
+            ctx.check("R3", "%s|same-convention|%s" % (qn, tag), True if same else (False if plain else None), "the bounds%s get one and the same transform on this branch" % (" and the longitudes" if "lon" in forms else ""),
                       bad="different transforms on one branch: %s" % {k: repr(v_)[:50] for k, v_ in forms.items()}, fn=qn)
         # congruence: erase mod 360 -> identity
         for nm, t_, src in (("w", wv, Q.sub(REG, 0)), ("e", ev_, Q.sub(REG, 1))) + ((("lon", cs[0].data[2], Q.sub(CO, 0)),) if with_co and cs else ()):
@@ -214,7 +219,9 @@ def r2_r3_r4(ctx):
             try:
                 got = Builder(sp).nf(erase_mod(t_), {src: x})
                 d = got - x
-                ok = True if d.is_const() and d.constval() % 360 == 0 else False
+                # anything but x itself in the difference (an opaque call, another quantity) leaves the question open
+                plain = all(sp.atoms[a][0] == "sym" for a in d.atoms_used())
+                ok = True if d.is_const() and d.constval() % 360 == 0 else (False if plain else None)
                 if ok is False and got.is_const() and any(any(y == src for y in walk(c_)) for c_, _v in p.conds):
                     ok = None         # a constant assigned on a branch selected by a test on this very bound (e == 0 -> 360)
             except Undecided:
